@@ -54,6 +54,31 @@ def load_known(prop):
     return out
 
 
+_KNOWN_INPUTS = {}
+_DUMP = set() if os.environ.get("VERIF_DUMP_KNOWN_INPUTS") else None
+
+
+_TIER = [None]
+
+
+def known_inputs(prop):
+    """Recorded input digests for the property's open findings in the current tier's
+    enumerations (known_inputs/<prop>.<tier>.keys), or None when nothing is recorded for the
+    tier (the finding is then matched by signature only).  Outside a tier run (replay) the
+    union of all recorded tiers is used."""
+    tier = _TIER[0]
+    k = (prop, tier)
+    if k not in _KNOWN_INPUTS:
+        tiers = [tier] if tier else ["quick", "thorough"]
+        acc = None
+        for t in tiers:
+            path = os.path.join(VERIF, "known_inputs", "%s.%s.keys" % (prop, t))
+            if os.path.exists(path):
+                acc = (acc or set()) | set(open(path).read().split())
+        _KNOWN_INPUTS[k] = acc
+    return _KNOWN_INPUTS[k]
+
+
 class Ctx(object):
     """Per-case reporting context handed to check functions."""
 
@@ -68,8 +93,20 @@ class Ctx(object):
         self.known_hits = []
         self.checked = 0
 
-    def violation(self, sig, msg):
+    def violation(self, sig, msg, key=None):
+        """`key` names the specific failing input where the generator is an enumeration; a
+        known finding then covers only the inputs recorded for it (known_inputs/<prop>.keys),
+        so that a *new* failing input of the same kind is still reported."""
         if sig in self.known:
+            if key is not None:
+                h = canon.digest(key)[:12]
+                if _DUMP is not None:
+                    _DUMP.add(h)
+                base = known_inputs(self.prop)
+                if base is not None and h not in base and _DUMP is None:
+                    raise Violation(sig + ",input=not-recorded",
+                                    msg + " [the known finding %r is recorded for specific inputs "
+                                    "of this enumeration and this input is not among them]" % sig)
             self.known_hits.append((sig, msg))
             return
         raise Violation(sig, msg)
@@ -173,6 +210,7 @@ def derive_seed(prop, comp, shard):
 
 def run_worker(prop, comp, tier, shard, nshards, outfile):
     t0 = time.time()
+    _TIER[0] = tier
     known = load_known(prop)
     ctx = Ctx(prop, known)
     tally = Tally()
@@ -191,6 +229,9 @@ def run_worker(prop, comp, tier, shard, nshards, outfile):
     except Exception:  # harness error
         out["error"] = traceback.format_exc()
     out.update(tally.dump())
+    if _DUMP is not None:
+        with open(os.environ["VERIF_DUMP_KNOWN_INPUTS"] + ".%d" % os.getpid(), "w") as f:
+            f.write("\n".join(sorted(_DUMP)) + "\n")
     out["wall_s"] = round(time.time() - t0, 2)
     with open(outfile, "w", encoding="utf-8") as f:
         f.write(canon.dumps(out))
